@@ -38,13 +38,16 @@ def sphereMask (T : Tables) (pos origin : VecV) (radius : ArrV) : Res (List Bool
   | [x] => pure (x.data.map fun t => decide (t < R))
   | _ => pure (d.normSq.map fun q => decide (0 < R) && decide (q < R * R))
 
+/-- one component of `extract_box`: `(c <= size/2) & (c >= -size/2)`, the size converted to the component's unit -/
+def compMask (p : ArrV × ArrV) : Res (List Bool) := do
+  let (sz, _) ← p.2.to p.1.unit
+  let h := getR sz.data 0 / 2
+  pure (p.1.data.map fun t => decide (t ≤ h) && decide (-h ≤ t))
+
 /-- `(c <= size/2) & (c >= -size/2)` per existing component, combined with `&` -/
 def boxMask (T : Tables) (pos origin : VecV) (sizes : List ArrV) : Res (List Bool) := do
   let d ← pos.binaryOp T .sub (.vec origin)
-  let per ← (List.zip d.comps sizes).mapM fun (p : ArrV × ArrV) => do
-    let (sz, _) ← p.2.to p.1.unit
-    let h := getR sz.data 0 / 2
-    pure (p.1.data.map fun t => decide (t ≤ h) && decide (-h ≤ t))
+  let per ← (List.zip d.comps sizes).mapM compMask
   match per with
   | [] => .error .typeErr
   | m :: rest => pure (rest.foldl (fun acc m' => List.zipWith (· && ·) acc m') m)
